@@ -4,6 +4,7 @@ import (
 	"fmt"
 	"math"
 
+	"verifharness/cat"
 	"verifharness/core"
 
 	"github.com/cinar/indicator/v2/helper"
@@ -289,10 +290,66 @@ func outcomeTypedUnit[T helper.Number](c *core.Ctx, tname string, alphabet []T, 
 	c.Nontrivial += nontriv
 }
 
+// cwoUnit: strategy.ComputeWithOutcome (the entry point of every Report and of the backtest) returns the strategy's
+// actions and the outcome of exactly those actions on the closings of the snapshots - whatever else the snapshots hold
+// (a flat zero-volume row padded in by a feed, a bar with a zero range).
+func cwoUnit(c *core.Ctx, L int) {
+	bars := [][5]float64{{4, 6, 3, 5, 10}, {5, 5, 5, 5, 0}, {7, 7, 2, 2, 5}, {2, 2, 2, 2, 0}}
+	var n, nontriv int64
+	for l := 0; l <= L; l++ {
+		for _, a := range words(3, l) {
+			actions := toActions(a)
+			for _, bw := range words(len(bars), l) {
+				rows := make([][5]float64, l)
+				closes := make([]float64, l)
+				for i, b := range bw {
+					rows[i] = bars[b]
+					closes[i] = bars[b][3]
+				}
+				var as *Sink[strategy.Action]
+				var os *Sink[float64]
+				res := mc.Run(func() {
+					x, y := strategy.ComputeWithOutcome(&stubStrategy{word: actions}, Feed(cat.Snapshots(rows), 0))
+					as, os = Collect(x), Collect(y)
+				}, mc.Options{})
+				n++
+				c.Executions++
+				c.Transitions += int64(res.Events)
+				cs := map[string]any{"actions": a, "bars_OHLCV": rows}
+				if res.Deadlock || len(res.Panics) > 0 || as == nil || !as.Closed || !os.Closed {
+					c.Fail("", fmt.Sprintf("ComputeWithOutcome over actions %v bars %v did not terminate cleanly", actions, rows), cs)
+					continue
+				}
+				if !eqActs(as.Vals, actions) {
+					c.Fail("", fmt.Sprintf("ComputeWithOutcome over bars %v returns the actions %v, the strategy emits %v", rows, as.Vals, actions), cs)
+					continue
+				}
+				want := refOutcome(closes, actions)
+				if len(os.Vals) != len(want) {
+					c.Fail("", fmt.Sprintf("ComputeWithOutcome over actions %v bars %v: %d outcomes for %d snapshots", actions, rows, len(os.Vals), len(want)), cs)
+					continue
+				}
+				for i := range want {
+					if want[i] != 0 {
+						nontriv++
+					}
+					if math.Abs(os.Vals[i]-want[i]) > 1e-12*math.Max(1, math.Abs(want[i])) {
+						c.Fail("", fmt.Sprintf("ComputeWithOutcome over actions %v bars %v: outcome[%d] = %v, the returned actions applied to the closings %v give %v", actions, rows, i, os.Vals[i], closes, want[i]), cs)
+						break
+					}
+				}
+			}
+		}
+	}
+	c.States += n
+	c.Evaluations += n
+	c.Nontrivial += nontriv
+}
+
 func init() {
 	core.Register(&core.Check{
 		ID:     "C08",
-		Rule:   "every action word over {Sell,Hold,Buy} x every value word over {1,2,4}, all pairs of lengths up to 5 (6 thorough) including unequal lengths; each pair is one execution of the real Outcome / NormalizeActions / DenormalizeActions / CountTransactions pipelines under the controlled scheduler; oracle: reference cash/shares simulator plus the statement's invariants one by one; states = (values, actions) pairs, transitions = scheduler events, non-trivial = pairs on which the buy-and-hold identity was checked; plus Outcome instantiated with int, int64, int8 and float32 value streams and float64 streams of very large / very small quotes (three values each with non-integral ratios, equal lengths up to 4 / 5) against the same simulator in float64",
+		Rule:   "every action word over {Sell,Hold,Buy} x every value word over {1,2,4}, all pairs of lengths up to 5 (6 thorough) including unequal lengths; each pair is one execution of the real Outcome / NormalizeActions / DenormalizeActions / CountTransactions pipelines under the controlled scheduler; oracle: reference cash/shares simulator plus the statement's invariants one by one; states = (values, actions) pairs, transitions = scheduler events, non-trivial = pairs on which the buy-and-hold identity was checked; plus Outcome instantiated with int, int64, int8 and float32 value streams and float64 streams of very large / very small quotes (three values each with non-integral ratios, equal lengths up to 4 / 5) against the same simulator in float64; and ComputeWithOutcome over a scripted strategy and bar words that include flat zero-volume rows",
 		Assume: []string{"values range over {1,2,4} (positive, powers of two so value ratios are exact); lengths up to the stated bound"},
 		Units: func(tier string) []core.Unit {
 			L := 5
@@ -316,6 +373,7 @@ func init() {
 					us = append(us, core.Unit{Key: fmt.Sprintf("outcome-a%d-v%d", la, lv), Cost: int(math.Pow(3, float64(la+lv))), Run: func(c *core.Ctx) { outcomeUnit(c, la, lv, -1) }})
 				}
 			}
+			us = append(us, core.Unit{Key: "compute-with-outcome", Cost: 400, Run: func(c *core.Ctx) { cwoUnit(c, L-1) }})
 			// element types other than float64 (equal lengths up to 4 / 5)
 			T := L - 1
 			us = append(us, core.Unit{Key: "outcome-int", Cost: 300, Run: func(c *core.Ctx) { outcomeTypedUnit(c, "int", []int{10, 15, 4}, T) }})
